@@ -130,7 +130,7 @@ def _inp(draw, t, shape, ddt):
                    "ties", "sparse"],
         "L2Proj": ["raw", "zeros", "interior", "interior", "boundary", "boundary-exact", "outside", "mixed"],
         "LInfProj": ["raw", "zeros", "interior", "threshold", "threshold", "outside", "ties"],
-        "PsdProj": ["rank1", "rank1", "blockdiag", "rotrepeat", "rotrepeat", "psd", "nsd", "indef", "indef", "zeros",
+        "PsdProj": ["rank1", "rank1", "blockdiag", "blockdiag", "rotrepeat", "rotrepeat", "psd", "nsd", "indef", "indef", "zeros",
                     "scaledI"],
         "BoxConstraint": ["raw", "raw", "interior", "bounds", "outside"],
         "NoOp": ["raw", "zeros"],
@@ -207,7 +207,7 @@ def _unitary(draw, ishape, field):
 def _node(draw, shape, dt, field, depth, top_stack=False):
     nd = len(shape)
     if depth > 0 and (top_stack or draw(st.integers(0, 4)) > 0):
-        comb = ["Conj", "Conj", "Unitary", "L2RegH"]
+        comb = ["Conj", "Conj", "Unitary", "Unitary", "L2RegH"]
         if nd == 1:
             comb += ["Stack", "Stack"]
         c = "Stack" if top_stack else draw(st.sampled_from(comb))
@@ -235,7 +235,7 @@ def _node(draw, shape, dt, field, depth, top_stack=False):
         return {"t": "Stack", "shape": list(shape), "ps": ps}
     cand = ["L1Reg", "L2Reg", "L1Proj", "L2Proj", "LInfProj", "NoOp"]
     if field == "real":
-        cand.append("BoxConstraint")
+        cand += ["BoxConstraint", "BoxConstraint"]
     if nd == 2 and shape[0] == shape[1]:
         cand += ["PsdProj"] * 4
     w = draw(st.sampled_from(cand + ["L1Proj", "L2Proj", "LInfProj", "L1Reg"]))
@@ -247,9 +247,9 @@ def st_prog(draw, max_depth=3):
     field = draw(st.sampled_from(["real", "complex"]))
     dt = draw(st.sampled_from(RDT if field == "real" else CDT))
     depth = draw(st.sampled_from([0, 0, 0, 1, 1, 2, 3][:4 + max_depth]))
-    mode = draw(st.integers(0, 5))
+    mode = draw(st.integers(0, 6))
     top_stack = False
-    if mode == 0:
+    if mode in (0, 6):
         n = draw(st.integers(1, 5))
         shape = [n, n]
     elif mode == 1:
